@@ -1,6 +1,8 @@
 // Package htmldoc provides HTML document parsing.
 package htmldoc
 
+import "strings"
+
 // parsedElement represents a parsed element from the HTML document.
 type parsedElement struct {
 	Type    ElementType
@@ -77,50 +79,52 @@ func (t *ParsedTable) ToMarkdown() string {
 		return ""
 	}
 
-	var result string
+	// A builder: appending to a string copies it every time, which makes the
+	// work grow with the square of the table
+	var result strings.Builder
 
 	// First row (header or first data row)
 	firstRow := t.Rows[0]
-	result += "|"
+	result.WriteString("|")
 	for _, cell := range firstRow {
-		result += " " + escapeMarkdown(cell.Text) + " |"
+		result.WriteString(" " + escapeMarkdown(cell.Text) + " |")
 	}
-	result += "\n"
+	result.WriteString("\n")
 
 	// Separator
-	result += "|"
+	result.WriteString("|")
 	for range firstRow {
-		result += " --- |"
+		result.WriteString(" --- |")
 	}
-	result += "\n"
+	result.WriteString("\n")
 
 	// Data rows: the first row was already written as the header line
 	for i := 1; i < len(t.Rows); i++ {
-		result += "|"
+		result.WriteString("|")
 		for _, cell := range t.Rows[i] {
-			result += " " + escapeMarkdown(cell.Text) + " |"
+			result.WriteString(" " + escapeMarkdown(cell.Text) + " |")
 		}
-		result += "\n"
+		result.WriteString("\n")
 	}
 
-	return result
+	return result.String()
 }
 
 // escapeMarkdown escapes special markdown characters in text.
 func escapeMarkdown(text string) string {
 	// Replace pipe characters which break markdown tables
-	result := ""
+	var result strings.Builder
 	for _, r := range text {
 		switch r {
 		case '|':
-			result += "\\|"
+			result.WriteString("\\|")
 		case '\n':
-			result += " "
+			result.WriteString(" ")
 		case '\r':
 			// Skip
 		default:
-			result += string(r)
+			result.WriteRune(r)
 		}
 	}
-	return result
+	return result.String()
 }
